@@ -27,3 +27,7 @@ check('C13', 'exploration',
       'Exhaustive insertion of 1-3 levels of jointless bodies (8 pose modes each incl. single-axis and un-normalised quats, all 15 content subsets at depth 1, sibling pairs) at every host of 4 base documents; MuJoCo forward kinematics of the original vs the fused document matched by element name, plus composite mass/COM/inertia of every moving body.',
       'MuJoCo compiler is the reference; tolerance 5e-6 per level because the loader prints six decimals. Un-normalised jointless quats are a listed known finding (differential: the disagreement must vanish when the harness pre-normalises exactly those quats).',
       'bounded exhaustive enumeration of documents (programs), reference-engine oracle', 'DESIGN.md 4/C13')
+check('C10', 'exploration',
+      'Every sphere/capsule type assignment over 2-3 free bodies plus a plane (aligned and tilted) and a two-geom body, 2^3 parameter sets, (24 cube rotations + generic)^2 link orientations x 5 designed separations x directions: every candidate row of contact.get compared with closed-form signed distance, normal direction, owning links and mean elasticity.',
+      'Closed forms for point/segment/plane distances are the reference. Distances 1e-9 (plane), 1e-7 (capsule pairs; mjx regularises closest points with 1e-6 terms), 1e-5 when centre lines touch; normals at 1e-3 where closest points are >= 2 cm apart.',
+      'bounded exhaustive enumeration of scenes x pose grid, closed-form oracle', 'DESIGN.md 4/C10')
